@@ -2031,6 +2031,289 @@ def objective_units():
             u_objective_mpe("flowpaths/kminpatherror.py", "kMinPathError"), u_objective_mpe("flowpaths/kminpatherrorcycles.py", "kMinPathErrorCycles"), u_objective_mef()]
 
 
+# =====================================================================================================================
+# Given-weights encoders of the DAG models (solution_weights_superset): weights are DATA, layers only choose paths
+
+def find_app(t, decl):
+    todo = [t]
+    while todo:
+        x = todo.pop()
+        if z3.is_app(x):
+            if x.decl().eq(decl):
+                return x
+            todo += list(x.children())
+    return None
+
+
+def given_weights_unit(relpath, qualname, P, wt, kind):
+    SW = z3.Function("given_weight", INT, REAL)
+    OUTDEG, SUCC = z3.Function("out_degree", INT, INT), z3.Function("succ_of", INT, INT, INT)
+    st = {}
+    i_, j_ = z3.Ints("qi qj")
+
+    def wterm(u, v, q): return mul(SW(q), X(u, v, q))
+
+    def edge_row(g, u, v):
+        k = st["k"]
+        WS, fl = st["WS"](u, v, k), g.FLOW(u, v)
+        if kind == "fd":
+            return WS == fl
+        if kind == "lae":
+            return z3.And(fl - WS <= EE(u, v), -fl + WS <= EE(u, v))
+        GS = st["GS"](u, v, k)
+        return z3.And(lift(Sym(fl - WS) * Sym(SCALE(u, v)) <= Sym(GS)), lift(Sym(fl - WS) * Sym(SCALE(u, v)) >= -Sym(GS)),
+                      z3.ForAll([i_], z3.Implies(z3.And(i_ >= 0, i_ < k), GAMMA(u, v, i_) == mul(X(u, v, i_), SLACK(i_)))))
+
+    def inv_outer(ns, seq, done):
+        g = st["g"]
+        return {"rows-so-far=exactly-the-specified-rows-on-the-non-ignored-edges-seen":
+                lift(ns["self"].solver.store.holds) == z3.And(st["H1"], z3.ForAll([j_], z3.Implies(z3.And(j_ >= 0, j_ < lift(done), z3.Not(IGN(g.EU(j_), g.EV(j_)))), edge_row(g, g.EU(j_), g.EV(j_)))))}
+
+    def on_entry_i(ns, it=None):
+        st["Hin"] = lift(ns["self"].solver.store.holds)
+        st["cur"] = (lift(ns["u"]), lift(ns["v"]))
+
+    def inv_inner(ns, seq, done):
+        u, v = st["cur"]
+        return {"product-rows-so-far=exactly-(gamma = x * slack)-for-the-paths-seen":
+                lift(ns["self"].solver.store.holds) == z3.And(st["Hin"], z3.ForAll([i_], z3.Implies(z3.And(i_ >= 0, i_ < lift(done)), GAMMA(u, v, i_) == mul(X(u, v, i_), SLACK(i_)))))}
+
+    def h(c, f):
+        abstract_mul(c)
+        g = Graph(c)
+        k, L, ok_ = c.fresh_const("k", INT), c.fresh_const("len_of_given_weights", INT), c.fresh_const("original_k", INT)
+        wmax = c.fresh_const("w_max", REAL)
+        c.assume(z3.And(k >= 1, L >= 0, ok_ >= 1, wmax >= 0))
+        src = g.source.t
+        st.update(g=g, k=k)
+        v_, q_ = z3.Ints("hv hq")
+        c.assume(z3.ForAll([v_], OUTDEG(v_) >= 0))
+        c.assume(z3.ForAll([v_, q_], z3.Implies(z3.And(q_ >= 0, q_ < OUTDEG(v_)), g.EDGE(v_, SUCC(v_, q_)))))
+        st["WS"] = prefix_sum(c, "weighted_paths_through_edge", lambda u, v, q: wterm(u, v, q), 2)
+        st["GS"] = prefix_sum(c, "sum_gamma", lambda u, v, q: GAMMA(u, v, q), 2)
+        OUT = prefix_sum(c, "outflow", lambda a, i, t: X(a, SUCC(a, t), i), 2)
+        USED = prefix_sum(c, "paths_used", lambda q: OUT(src, q, OUTDEG(src)), 0)
+        COL = prefix_sum(c, "layers_using_source_edge", lambda t, q: X(src, SUCC(src, t), q), 1)
+        USED2 = prefix_sum(c, "paths_used_by_source_edge", lambda t: COL(t, k), 0)
+        edge_pred = lambda a, b, i: z3.And(g.EDGE(a, b), i >= 0, i < k)
+
+        class GG:
+            source, sink = g.source, g.sink
+            def edges(self, data=False): return g.edges(data)
+            def successors(self, a): return SymSeq(OUTDEG(lift(a)), lambda t: Sym(SUCC(lift(a), lift(t))), SInt, "successors")
+
+        class Me(Tracked):
+            pass
+        me = Me()
+        fams = {"ee": (EE, 2), "slack": (SLACK, 1), "gamma": (GAMMA, 3)}
+        sol = Solver(fams)
+        sol.graph, sol.basic_pred = g, (lambda a, b: z3.And(g.EDGE(a, b), z3.Not(IGN(a, b))))
+        from pyvc.heap import BigSum
+
+        def linked_sum(it):
+            # product generator  x(s,v,i) for v in successors(s) for i in range(k)  (the objective of the flow-decomposition variant)
+            if isinstance(it, LazyProduct):
+                t0 = c.fresh_const("arbitrary_source_edge", INT)
+                c.assume(z3.And(t0 >= 0, t0 < OUTDEG(src)))
+                it1 = it.it1
+                if not (isinstance(it1, SymSeq) and c._valid(z3.And(lift(it1.length()) == OUTDEG(src), lift(it1.at(t0)) == SUCC(src, t0)))):
+                    raise Unsupported("product generator: outer iterable is not successors(source)")
+                x1 = it1.at(t0)
+                it2 = it.it2fn(x1)
+                inner = BigSum(lift(it2.length()), lambda i: it.fn(x1)(it2.at(i)), REAL, "sum")
+                c.sums.append(inner) if hasattr(c, "sums") else setattr(c, "sums", [inner])
+                tj = z3.Int(c.name("tj"))
+                if not c._valid(z3.And(inner.n == k, inner.t(tj) == X(src, SUCC(src, t0), tj))):
+                    raise Unsupported("product generator: inner term is not x(source, successor, i)")
+                link_sum(c, "inner-sum=layers-using-an-(arbitrary)-source-edge", lambda q: COL(t0, q), lambda q: z3.Implies(q >= 0, COL(t0, q + 1) == COL(t0, q) + X(src, SUCC(src, t0), q)), k, prop=P)
+                outer = BigSum(OUTDEG(src), lambda t: Sym(COL(lift(t), k)), REAL, "sum")
+                c.sums.append(outer)
+                link_sum(c, "outer-sum=paths-used,-counted-by-source-edge", lambda q: USED2(q), lambda q: z3.Implies(q >= 0, USED2(q + 1) == USED2(q) + COL(q, k)), OUTDEG(src), prop=P)
+                return outer.value
+            if isinstance(it, LazyMap) and isinstance(it.seq, SymRange) and it.flt is None:
+                # possibly a sum of sums: evaluate the term at an arbitrary layer; if that built (and linked) an inner sum, the outer sum is over its canonical value
+                i0 = c.fresh_const("arbitrary_layer", INT)
+                c.assume(z3.And(i0 >= 0, i0 < k))
+                n_before = len(getattr(c, "sums", []))
+                val = it.fn(Sym(i0))
+                if len(getattr(c, "sums", [])) > n_before:
+                    if not (c._valid(lift(it.seq.length()) == k) and c._valid(lift(val) == OUT(src, i0, OUTDEG(src)))):
+                        raise Unsupported("sum of sums not recognised as `edges leaving the source, per layer`")
+                    outer = BigSum(k, lambda i: Sym(OUT(src, lift(i), OUTDEG(src))), REAL, "sum")
+                    c.sums.append(outer)
+                    link_sum(c, "outer-sum=number-of-paths-used", lambda q: USED(q), lambda q: z3.Implies(q >= 0, USED(q + 1) == USED(q) + OUT(src, q, OUTDEG(src))), k, prop=P)
+                    return outer.value
+            r = Solver.quicksum(sol, it)
+            bs = c.sums[-1]
+            tj = z3.Int(c.name("tj"))
+            t = bs.t(tj)
+            xa = find_app(t, X)
+            if xa is not None and c._valid(z3.And(bs.n == k, t == wterm(xa.arg(0), xa.arg(1), tj))):
+                u, v = xa.arg(0), xa.arg(1)
+                S = st["WS"]
+                link_sum(c, "sum-built-by-the-code=sum_i-given_weight(i)*x(u,v,i)", lambda q: S(u, v, q), lambda q: z3.Implies(q >= 0, S(u, v, q + 1) == S(u, v, q) + wterm(u, v, q)), k, prop=P)
+            elif z3.is_app(t) and t.decl().eq(GAMMA) and c._valid(z3.And(bs.n == k, t == GAMMA(t.arg(0), t.arg(1), tj))):
+                u, v = t.arg(0), t.arg(1)
+                S = st["GS"]
+                link_sum(c, "sum-built-by-the-code=sum_i-gamma(u,v,i)", lambda q: S(u, v, q), lambda q: z3.Implies(q >= 0, S(u, v, q + 1) == S(u, v, q) + GAMMA(u, v, q)), k, prop=P)
+            elif xa is not None and c._valid(z3.And(bs.n == OUTDEG(xa.arg(0)), t == X(xa.arg(0), SUCC(xa.arg(0), tj), xa.arg(2)))):
+                a, i = xa.arg(0), xa.arg(2)
+                link_sum(c, "sum-built-by-the-code=edges-leaving-the-node-in-the-layer", lambda q: OUT(a, i, q), lambda q: z3.Implies(q >= 0, OUT(a, i, q + 1) == OUT(a, i, q) + X(a, SUCC(a, q), i)), OUTDEG(a), prop=P)
+            else:
+                raise Unsupported("sum not recognised: %s" % t)
+            return r
+        sol.quicksum = linked_sum
+        orig_add = sol.add_variables
+
+        def add_variables(*a, **kw):
+            r = orig_add(*a, **kw)
+            st["H1"] = lift(sol.store.holds)
+            return r
+        sol.add_variables = add_variables
+        me.solver, me.G = sol, GG()
+        me.k, me.original_k, me.w_max, me.flow_attr = Sym(k), Sym(ok_), Sym(wmax), "flow"
+        me.weight_type = BUILTINS["int"] if wt is int else BUILTINS["float"]
+        me.solution_weights_superset = SymSeq(L, lambda q: Sym(SW(lift(q))), SReal0, "solution_weights_superset")
+        me.optimization_options = {}
+        me.allow_empty_paths = True
+        me.path_length_factors, me.path_length_ranges = [], []
+        me.edge_indexes = IdxSet("edge_indexes", edge_pred, 3)
+        me.path_indexes = IdxSet("path_indexes", lambda i: z3.And(i >= 0, i < k), 1)
+        me.edge_vars = VarMap("edge_vars", X, edge_pred, 3)
+        me.edges_to_ignore = Member(IGN, "ignored")
+        me.edge_error_scaling = ScaleMap()
+        me.is_solved = lambda: False
+        for a in ("edge_errors_vars", "gamma_vars", "path_slacks_vars"):
+            setattr(me, a, {})
+        H0 = lift(sol.store.holds)
+        st["H1"] = H0
+        u, v, i = z3.Ints("hu hv hi")
+        c.assume(z3.Implies(H0, z3.ForAll([u, v, i], z3.Implies(edge_pred(u, v, i), z3.Or(X(u, v, i) == 0, X(u, v, i) == 1)))))
+        try:
+            f(me)
+        except ValueError:
+            c.prove("xpost:ValueError-only-if-the-number-of-given-weights-differs-from-k", L != k, prop=P, kind="xpost")
+            c.prove("xpost:nothing-was-added-before-the-error", z3.BoolVal(lift(sol.store.holds).eq(H0)), prop=P, kind="xpost")
+            return
+        H = lift(sol.store.holds)
+        c.prove("post:normal-return-only-with-exactly-k-given-weights", L == k, prop=P)
+        want = {"fd": {}, "lae": {"ee": "wt"}, "mpe": {"slack": "wt", "gamma": "continuous"}}[kind]
+        tn = lambda t: ("integer" if wt is int else "continuous") if t == "wt" else t
+        c.prove("post:exactly-the-declared-column-families-are-created", z3.BoolVal({nm: r["var_type"] for nm, r in sol.created.items()} == {nm: tn(t) for nm, t in want.items()}), prop=P)
+        num = lambda t, integer: z3.And(0 <= t, t <= wmax, *([z3.IsInt(t)] if integer else []))
+        bnds = []
+        if kind == "lae":
+            bnds.append(z3.ForAll([u, v], z3.Implies(z3.And(g.EDGE(u, v), z3.Not(IGN(u, v))), num(EE(u, v), wt is int))))
+        if kind == "mpe":
+            bnds.append(z3.ForAll([i], z3.Implies(z3.And(i >= 0, i < k), num(SLACK(i), wt is int))))
+            bnds.append(z3.ForAll([u, v, i], z3.Implies(edge_pred(u, v, i), num(GAMMA(u, v, i), False))))
+        spec = z3.And(z3.ForAll([u, v], z3.Implies(z3.And(g.EDGE(u, v), z3.Not(IGN(u, v))), edge_row(g, u, v))), USED(k) <= z3.ToReal(ok_))
+        full = z3.And(H0, *bnds, spec)
+        c.prove("post:SOUND-on-every-non-ignored-edge-the-rows-speak-about-sum_i given_weight(i)*x(u,v,i);-at-most-original_k-layers-leave-the-source", z3.Implies(H, full), prop=P)
+        c.prove("post:COMPLETE-nothing-else-is-excluded", z3.Implies(full, H), prop=None, kind="complete")
+        objs = getattr(sol, "objectives", [])
+        if kind == "fd":
+            c.prove("post:objective=number-of-paths-used-(edges-leaving-the-source-summed-over-the-layers),-minimised",
+                    z3.And(z3.BoolVal(len(objs) == 1 and objs[0][1] == "minimize"), objs[0][0] == USED2(OUTDEG(src))) if objs else z3.BoolVal(False), prop=P)
+        else:
+            c.prove("post:no-objective-is-set-here", z3.BoolVal(not objs), prop=P)
+
+    def concrete(inst):
+        def hc(c, f):
+            E, k, ok_, s0 = [tuple(e) for e in inst["edges"]], inst["k"], inst["original_k"], inst["source"]
+            ign = set(map(tuple, inst.get("ign", ())))
+            wmax = c.fresh_const("w_max", REAL)
+            c.assume(wmax >= 0)
+
+            class Data:
+                def __init__(self, u, v): self.u, self.v = u, v
+                def __getitem__(self, key): return Sym(FLOWC(self.u, self.v))
+
+            class GG:
+                source = s0
+                def edges(self, data=False): return [(u, v, Data(u, v)) for u, v in E] if data else list(E)
+                def successors(self, a): return [b for (x, b) in E if x == a]
+            members = [(u, v, i) for i in range(k) for (u, v) in E]
+
+            class Me(Tracked):
+                pass
+            me = Me()
+            sol = Solver({"ee": (EE, 2), "slack": (SLACK, 1), "gamma": (GAMMA, 3)})
+            me.solver, me.G = sol, GG()
+            me.k, me.original_k, me.w_max, me.flow_attr = k, ok_, Sym(wmax), "flow"
+            me.weight_type = BUILTINS["int"] if wt is int else BUILTINS["float"]
+            me.solution_weights_superset = [Sym(SW(z3.IntVal(i))) for i in range(inst.get("n_weights", k))]
+            me.optimization_options, me.allow_empty_paths = {}, True
+            me.path_length_factors, me.path_length_ranges = [], []
+            me.edge_indexes = concrete_idx("edge_indexes", members, 3)
+            me.path_indexes = concrete_idx("path_indexes", [(i,) for i in range(k)], 1)
+            me.edge_vars = VarMap("edge_vars", X, me.edge_indexes.pred, 3)
+            me.edges_to_ignore, me.edge_error_scaling = ign, CScaleMap()
+            me.is_solved = lambda: False
+            H0 = lift(sol.store.holds)
+            c.assume(z3.Implies(H0, z3.And(*[z3.Or(X(*m_) == 0, X(*m_) == 1) for m_ in members])))
+            try:
+                f(me)
+            except ValueError:
+                c.prove("instance:ValueError-only-if-the-number-of-given-weights-differs-from-k", z3.BoolVal(inst.get("n_weights", k) != k), prop=P)
+                return
+            c.prove("instance:normal-return-only-with-exactly-k-given-weights", z3.BoolVal(inst.get("n_weights", k) == k), prop=P)
+            H = lift(sol.store.holds)
+            S = lambda ts: sum(ts, z3.RealVal(0))
+            num = lambda t, integer: z3.And(0 <= t, t <= wmax, *([z3.IsInt(t)] if integer else []))
+            rows = []
+            basic = [e for e in E if e not in ign]
+            if kind == "lae":
+                rows += [num(EE(*e), wt is int) for e in basic]
+            if kind == "mpe":
+                rows += [num(SLACK(i), wt is int) for i in range(k)] + [num(GAMMA(*m_), False) for m_ in members]
+            for (u, v) in basic:
+                WSv, fl = S([SW(i) * X(u, v, i) for i in range(k)]), FLOWC(u, v)
+                if kind == "fd":
+                    rows.append(WSv == fl)
+                elif kind == "lae":
+                    rows += [fl - WSv <= EE(u, v), -fl + WSv <= EE(u, v)]
+                else:
+                    GSv = S([GAMMA(u, v, i) for i in range(k)])
+                    rows += [(fl - WSv) * SCALE(u, v) <= GSv, (fl - WSv) * SCALE(u, v) >= -GSv] + [GAMMA(u, v, i) == X(u, v, i) * SLACK(i) for i in range(k)]
+            used = S([X(s0, b, i) for i in range(k) for (x, b) in E if x == s0])
+            rows.append(used <= ok_)
+            full = z3.And(H0, *rows)
+            c.prove("instance:SOUND-rows-speak-about-sum_i-given_weight(i)*x(u,v,i);-at-most-original_k-layers-leave-the-source", z3.Implies(H, full), prop=P)
+            c.prove("instance:COMPLETE-nothing-else-is-excluded", z3.Implies(full, H), prop=None, kind="complete")
+            objs = getattr(sol, "objectives", [])
+            if kind == "fd":
+                c.prove("instance:objective=number-of-paths-used,-minimised", z3.And(z3.BoolVal(len(objs) == 1 and objs[0][1] == "minimize"), objs[0][0] == used) if objs else z3.BoolVal(False), prop=P)
+        return hc
+
+    def instances():
+        D = [(0, 1), (0, 2), (1, 3), (2, 3)]
+        return [(lab, concrete(i)) for lab, i in (("diamond,3-given-weights,original_k=2", dict(edges=D, k=3, original_k=2, source=0)),
+                                                  ("diamond,2-given-weights,original_k=1,one-ignored", dict(edges=D, k=2, original_k=1, source=0, ign=[(2, 3)])),
+                                                  ("wrong-number-of-weights", dict(edges=D, k=2, original_k=2, source=0, n_weights=3)))]
+
+    fresh = lambda old: Sym(z3.Bool(core.ctx().name("H")))
+    mod = [(("self", "solver", "store", "holds"), fresh)]
+    keep = ("u", "v", "data", "f_u_v", "i", "slack_var", "edge_error_scaling_u_v")
+    if kind == "mpe":
+        loops = {2: dict(inv=inv_outer, prop=P, modifies=mod, keep=keep), 3: dict(inv=inv_inner, prop=P, on_entry=on_entry_i, modifies=mod, keep=("i", "slack_var"), bind_target_at_exit=True)}
+    else:
+        loops = {0: dict(inv=inv_outer, prop=P, modifies=mod, keep=keep)}
+    return Unit(relpath, qualname, h, globs=dict(utils=UtilsStub), loops=split_loops(loops, P), props=[P], name="%s:%s[weight_type=%s]" % (relpath, qualname, wt.__name__), instances=instances,
+                callee_contracts=[A1C], assumptions=[A3, "A2 successors(source) enumerates the edges leaving the source",
+                                                      "requires: the rows added before force every edge variable into {0,1}; no safety option is on (the constructor rejects that combination, checked first in the function); "
+                                                      "empty paths allowed (the constructor forces it for given weights); no path-length scaling"])
+
+
+def given_weights_units():
+    out = []
+    for wt in (int, float):
+        out.append(given_weights_unit("flowpaths/kflowdecomp.py", "kFlowDecomp._encode_flow_decomposition_with_given_weights", "C02", wt, "fd"))
+        out.append(given_weights_unit("flowpaths/kleastabserrors.py", "kLeastAbsErrors._encode_leastabserrors_decomposition_with_given_weights", "C07", wt, "lae"))
+        out.append(given_weights_unit("flowpaths/kminpatherror.py", "kMinPathError._encode_minpatherror_decomposition_with_given_weights", "C08", wt, "mpe"))
+    return out
+
+
 def all_units():
-    return dag_units() + cyc_units() + objective_units() + [u_subset_constraints()] + [u_encode_walks(False), u_encode_walks(True)] + [u_mingenset(w, m_) for w in (int, float) for m_ in (False, True)] + [u_symmetry_breaking()] + [u_min_error_flow(int), u_min_error_flow(float)] + [u_encode_paths(False), u_encode_paths(True)] + \
+    return dag_units() + cyc_units() + objective_units() + given_weights_units() + [u_subset_constraints()] + [u_encode_walks(False), u_encode_walks(True)] + [u_mingenset(w, m_) for w in (int, float) for m_ in (False, True)] + [u_symmetry_breaking()] + [u_min_error_flow(int), u_min_error_flow(float)] + [u_encode_paths(False), u_encode_paths(True)] + \
         [u_cover("flowpaths/kpathcover.py", "kPathCover._encode_path_cover", "subpath_constraints"), u_cover("flowpaths/kpathcovercycles.py", "kPathCoverCycles._encode_walk_cover", "subset_constraints")]
